@@ -99,15 +99,18 @@ def build(ctx):
                            extra_flags=["-fPIC"], libs=["-shared"])
         f_noent = ex.submit(C.compile_harness, "select_mock_noentry", [os.path.join(HS, "mock_driver.c")],
                             extra_flags=["-fPIC"], libs=["-shared"], defines=["MOCK_NO_ENTRY"])
+        f_unres = ex.submit(C.compile_harness, "select_mock_unresolved", [os.path.join(HS, "mock_driver.c")],
+                            extra_flags=["-fPIC"], libs=["-shared"], defines=["MOCK_UNRESOLVED"])
         f_ext = ex.submit(C.compile_harness, "select_extract", [os.path.join(HS, "extract_devtable.c")])
         f_har = ex.submit(C.compile_harness, "h_select", HARNESS_SRC)
         lib, log_lib = f_lib.result()
         mock, log_mock = f_mock.result()
         noent, log_noent = f_noent.result()
+        unres, log_unres = f_unres.result()
         ext, log_ext = f_ext.result()
         har, log_har = f_har.result()
     for what, p, log in (("libacquire-driver-common.so", lib, log_lib), ("mock driver", mock, log_mock),
-                         ("mock driver without entry point", noent, log_noent), ("device table extractor", ext, log_ext)):
+                         ("mock driver without entry point", noent, log_noent), ("mock driver with an unresolved symbol", unres, log_unres), ("device table extractor", ext, log_ext)):
         if not p:
             ctx.corr_broken.append({"what": "%s does not build from %s" % (what, C.REPO), "log": log[-3000:]})
             return None
@@ -138,7 +141,7 @@ def build(ctx):
     if len(names) != 6:
         ctx.corr_broken.append({"what": "DeviceManagerV0::init no longer loads six driver libraries (model has six slots)", "found": names})
         return None
-    return {"lib": lib, "mock": mock, "noentry": noent, "harness": har, "names": names, "table": parse_table(out)}
+    return {"lib": lib, "mock": mock, "noentry": noent, "unresolved": unres, "harness": har, "names": names, "table": parse_table(out)}
 
 
 def parse_table(text):
@@ -181,13 +184,13 @@ def gen_mock_devices(rng, rich):
 
 
 def make_config(rng, present_mask, common, rich=True):
-    """slots: list of (state, devices). state in common|absent|noentry|initfail|garbage|mock"""
-    slots = [("common" if common else rng.choice(["absent", "absent", "garbage", "noentry", "initfail"]), [])]
+    """slots: list of (state, devices). state in common|absent|noentry|initfail|garbage|unresolved|mock (to the model, a library that cannot be loaded is absent)"""
+    slots = [("common" if common else rng.choice(["absent", "absent", "garbage", "noentry", "initfail", "unresolved"]), [])]
     for s in range(1, 6):
         if present_mask >> (s - 1) & 1:
             slots.append(("mock", gen_mock_devices(rng, rich)))
         else:
-            slots.append((rng.choice(["absent", "absent", "absent", "noentry", "initfail", "garbage"]), []))
+            slots.append((rng.choice(["absent", "absent", "absent", "noentry", "initfail", "garbage", "unresolved"]), []))
     return slots
 
 
@@ -220,6 +223,8 @@ def layout(paths, slots, tag):
                     f.write("%d %s\n" % (k, hexs(n)))
         elif st == "noentry":
             shutil.copyfile(paths["noentry"], so)
+        elif st == "unresolved":
+            shutil.copyfile(paths["unresolved"], so)
         elif st == "garbage":
             with open(so, "wb") as f:
                 f.write(b"\x7fELF this is not a shared object\n" * 3)
